@@ -1475,13 +1475,15 @@ def convert_mul_max_to_abs_or_lrelu(op: Operation, arch, nng) -> Operation:
             # check that it is a constant
             if const.type != Op.Const:
                 return op
-            # Remove the Mul from the shared input's consumers
-            shared_in.consumer_list.remove(mul)
         else:
             return op
 
-        val = const.outputs[0].values
-        if val >= 0:
+        # The decision is about the value the constant stands for, not about its quantised representation:
+        # Max(x, alpha * x) is a LeakyReLU for 0 <= alpha <= 1 only (for alpha > 1 it is alpha * x for positive x)
+        val = (np.double(const.outputs[0].values) - const_tens.quantization.zero_point) * np.double(
+            const_tens.quantization.scale_f32
+        )
+        if 0 <= val <= 1:
             new_op = Op.LeakyRelu
             op.attrs["alpha"] = val
             # to produce bit exact results, the alpha is not enough;
@@ -1498,6 +1500,8 @@ def convert_mul_max_to_abs_or_lrelu(op: Operation, arch, nng) -> Operation:
         else:
             return op
 
+        # Remove the Mul from the shared input's consumers
+        shared_in.consumer_list.remove(mul)
         op.type = new_op
         op.name = op.name.replace("Maximum", new_op.name)
         op.outputs[0].name = op.outputs[0].name.replace("Maximum", new_op.name)
